@@ -107,7 +107,9 @@ def run(tier, seed):
         "rule": "every tabulated Wyckoff position of every Hall setting over the tiers (quick: every second row, parity by seed; "
                 "thorough: all 3467 rows in >= 3 descriptions) with a general-position species, own and re-described cells, "
                 "Spglib/Standard alternating plus Setting::HallNumber(generating Hall number) for a slice (quick: every setting that "
-                "neither convention reports at least once per run; thorough: every row), "
+                "neither convention reports at least once per run; thorough: every row), plus positions with one free parameter close to a special value "
+                "(the orbit clusters at 10 symprec .. 1.8 sqrt(symprec): unambiguous at symprec, but on another letter's subspace for a tolerance applied "
+                "on the wrong scale; quick: every sixth sliced row, thorough: every second), "
                 "plus mode hall; non-trivial when a dataset with >= 2 orbits was returned for a re-described input",
     }
 
@@ -131,6 +133,7 @@ def run(tier, seed):
         req_lines = [l for l in per_mode.get("wyckoff", ([], []))[0] if (pipe.seg(l, "setting") or "").startswith("hall")]
         info["hall_number_requests"] = len(req_lines)
         info["hall_numbers_requested"] = len(set(pipe.seg(l, "setting") for l in req_lines))
+        info["near_special_cases"] = len([l for l in per_mode.get("wyckoff", ([], []))[0] if "near-special" in (pipe.seg(l, "tsteps") or "")])
         info["hall_number_requests_refused"] = sum(1 for l in req_lines if pipe.seg(l, "out") != "ok")
         log(f"[C07] correspondences: {info.get('parser_disagreements')} parser, {info.get('orbit_disagreements')} orbit, "
             f"{info.get('table_failures')} table failures; {len(rows)} table rows decorated")
